@@ -1,7 +1,7 @@
 """sx.instrument -- opt-in source instrumentation (symbolic mode only).
 
 A few Python constructs bypass name lookup, so a shim installed in module globals cannot intercept them:
-    b"".join(parts)      "".join(parts)       fmt % args  (fmt a string literal)      x in CONTAINER / x not in CONTAINER
+    b"".join(parts)      "".join(parts)       fmt % args  (fmt a string literal)      x in CONTAINER / x not in CONTAINER       {}  (empty dict display, opt-in `dicts`: look-up by == instead of by hash)
 For the functions named by a harness the source is read from /repo (inspect), an ast.NodeTransformer rewrites exactly these
 constructs into calls of helper functions placed in the function's globals, and the function's __code__ is replaced by the
 recompiled code (same file name and line numbers, so message-context detection and tracebacks are unchanged).  The rewrite is
@@ -29,6 +29,15 @@ class _T(ast.NodeTransformer):
                 return ast.copy_location(ast.Call(func=ast.Name(id='__sx_sjoin', ctx=ast.Load()), args=[f.value, node.args[0]], keywords=[]), node)
         return node
 
+    def visit_Dict(self, node):
+        self.generic_visit(node)
+        # opt-in: an EMPTY dict display becomes an association list whose look-up compares keys with == (a solver fork for symbolic keys),
+        # so concrete and symbolic integer keys meet each other, which hashing cannot give
+        if self.opts.get('dicts') and not node.keys:
+            self.count += 1
+            return ast.copy_location(ast.Call(func=ast.Name(id='__sx_dict', ctx=ast.Load()), args=[], keywords=[]), node)
+        return node
+
     def visit_Import(self, node):
         # function-local `import re` -> the regular-expression shim (opt-in)
         if self.opts.get('re') and len(node.names) == 1 and node.names[0].name == 're' and node.names[0].asname is None:
@@ -52,6 +61,66 @@ class _T(ast.NodeTransformer):
                 call = ast.Call(func=ast.Name(id='__sx_not', ctx=ast.Load()), args=[call], keywords=[])
             return ast.copy_location(call, node)
         return node
+
+
+class SDict:
+    """insertion-ordered mapping without hashing: keys are compared with == (forks when symbolic).  Only what the instrumented code uses."""
+
+    def __init__(self):
+        self._k, self._v = [], []
+
+    def _find(self, key):
+        for i, k in enumerate(self._k):
+            if k == key:
+                return i
+        return -1
+
+    def __contains__(self, key):
+        return self._find(key) >= 0
+
+    def __getitem__(self, key):
+        i = self._find(key)
+        if i < 0:
+            raise KeyError(key)
+        return self._v[i]
+
+    def __setitem__(self, key, value):
+        i = self._find(key)
+        if i < 0:
+            self._k.append(key)
+            self._v.append(value)
+        else:
+            self._v[i] = value
+
+    def get(self, key, default=None):
+        i = self._find(key)
+        return default if i < 0 else self._v[i]
+
+    def setdefault(self, key, default=None):
+        i = self._find(key)
+        if i < 0:
+            self._k.append(key)
+            self._v.append(default)
+            return default
+        return self._v[i]
+
+    def items(self):
+        return list(zip(self._k, self._v))
+
+    def keys(self):
+        return list(self._k)
+
+    def values(self):
+        return list(self._v)
+
+    def __iter__(self):
+        return iter(list(self._k))
+
+    def __len__(self):
+        return len(self._k)
+
+    def __bool__(self):
+        return bool(self._k)
 
 
 def _helpers():
@@ -78,7 +147,7 @@ def _helpers():
             return ~b
         return not b
     from . import strings as _st
-    return {'__sx_bjoin': bjoin, '__sx_sjoin': sjoin, '__sx_fmt': fmt, '__sx_in': s_in, '__sx_not': s_not, '__sx_re': _st.re_shim}
+    return {'__sx_dict': SDict, '__sx_bjoin': bjoin, '__sx_sjoin': sjoin, '__sx_fmt': fmt, '__sx_in': s_in, '__sx_not': s_not, '__sx_re': _st.re_shim}
 
 
 def instrument_function(fn, **opts):
